@@ -52,6 +52,7 @@ fn main() {
                 "C03" => props::c03::run(&cx),
                 "C04" => props::c04::run(&cx),
                 "C05" => props::c05::run(&cx),
+                "C06" => props::c06::run(&cx),
                 "C09" => props::c09::run(&cx),
                 other => {
                     eprintln!("unknown property {}", other);
